@@ -3,6 +3,7 @@
 Executes a list of operations against the real taskchain, streaming one JSON observation per operation to `out_fd`.
 Draws nothing: everything is dictated by the scenario.
 """
+import copy
 import errno
 import io
 import json
@@ -384,7 +385,7 @@ def build_classes(world):
         for p in c['params']:
             kw = {}
             if p['default'] != A.NO_DEFAULT:
-                kw['default'] = p['default']['v']
+                kw['default'] = A.decode_value(p['default']['v'])
             if p.get('ignore'):
                 kw['ignore_persistence'] = True
             if p.get('dpd'):
@@ -506,7 +507,7 @@ class Renderer:
                 for p in self.world['classes'][cid]['params']:
                     key = p.get('nic') or p['name']
                     if key not in cfg['values'] and p['default'] != A.NO_DEFAULT and not p.get('nospell'):
-                        vals[key] = json.loads(json.dumps(p['default']['v']))
+                        vals[key] = A.decode_value(p['default']['v'])
         for k, v in (render.get('extra', {}) or {}).items():
             vals.setdefault(k, v)
         for k, v in (render.get('ignored_values', {}) or {}).items():
@@ -524,7 +525,7 @@ class Renderer:
         if first:
             data['tasks'] = self.tasks_field(cfg, render)
         for k, v in items:
-            data[k] = json.loads(json.dumps(v))
+            data[k] = A.decode_value(v)
         if not first:
             data['tasks'] = self.tasks_field(cfg, render)
         return data
@@ -643,14 +644,14 @@ class Renderer:
     def context(self, root, render):
         """-> (context data dict or None, moved: {cfg index: set(keys)})"""
         ov = root.get('overrides') or {}
-        glob = json.loads(json.dumps(ov.get('global', {})))
-        for_ns = json.loads(json.dumps(ov.get('for_ns', {})))
+        glob = A.decode_value(ov.get('global', {}))
+        for_ns = A.decode_value(ov.get('for_ns', {}))
         moved = {}
         outer = render.get('outer_ns')
         for mv in render.get('moves', []) or []:
             # {'ns': ns or None, 'cfg': ci, 'key': k, 'to': 'global'|'ns'}
             ci, key = mv['cfg'], mv['key']
-            val = self.world['configs'][ci]['values'][key]
+            val = A.decode_value(self.world['configs'][ci]['values'][key])
             if mv['to'] == 'global':
                 glob.setdefault(key, val)
             else:
@@ -677,11 +678,15 @@ class Proc:
         self.chains = {}
         self.multis = {}
         self.tokens = {}
+        self.keepalive = []
         self.classes = None
         self.renderer = None
         self.kind_of_slug = {c['slug']: c['kind'] for c in self.world['classes']}
 
     def token(self, obj):
+        # keep every task object alive: a freed object's address (id) could be reused by a later one
+        if id(obj) not in self.tokens:
+            self.keepalive.append(obj)
         return self.tokens.setdefault(id(obj), len(self.tokens))
 
     def describe(self, chain):
@@ -752,7 +757,11 @@ class Proc:
                 raise
             return {'err': [type(e).__name__, str(e)[:300]], 'obj': self.token(t)}
         ST.active = False      # canonicalisation reads directory values; that is the harness, not taskchain
-        return {'ok': V.canon_observed(self.kind_of_slug[t.slugname], v), 'obj': self.token(t)}
+        res = {'ok': V.canon_observed(self.kind_of_slug[t.slugname], v), 'obj': self.token(t)}
+        if op.get('mutate'):
+            # a caller scribbling over the value it was handed must not reach what other chains load
+            res['mutated'] = _scribble(v)
+        return res
 
     def op_insp(self, op):
         chain = self.chains.get(op['cid'])
@@ -854,6 +863,28 @@ class Proc:
         except Exception as e:
             return {'err': [type(e).__name__, str(e)[:300]]}
         return {'ok': True, 'out_lines': buf.getvalue().count('\n')}
+
+
+def _scribble(v):
+    try:
+        import numpy as np
+        import pandas as pd
+        if isinstance(v, dict):
+            v['__scribble__'] = 1
+            return 'dict'
+        if isinstance(v, list):
+            v.append('__scribble__')
+            return 'list'
+        if isinstance(v, np.ndarray) and v.size and v.flags.writeable and v.dtype.kind in 'iuf':
+            v[...] = 1
+            return 'ndarray'
+        if isinstance(v, pd.DataFrame) and v.shape[0] and v.shape[1]:
+            v.iloc[:, 0] = v.iloc[::-1, 0].to_numpy()
+            v['__scribble__'] = 0
+            return 'frame'
+    except Exception as e:
+        return 'failed:' + type(e).__name__
+    return None
 
 
 def _jsonable(x):
